@@ -177,34 +177,33 @@ SupStep ==
     /\ UNCHANGED <<lifeMu, pc, op, ret, ops, cur, tcp, sup, shutdown, gen, cancelled, drops, closedOnce>>
 
 (* ------------------------------------------------------------------ reconnect loop *)
-LoopStep(l) ==
-    /\ l \in loops
-    /\ \/ /\ l.pc = "L_waitprev" /\ ep[l.prev] = "done"
-          /\ loops' = (loops \ {l}) \cup {[l EXCEPT !.pc = "L_sleep"]}
-          /\ UNCHANGED <<ep, cur, tcp, sealed>>
-       \/ /\ l.pc = "L_sleep"                                      \* the backoff sleep ends, or Close interrupts it
-          /\ loops' = IF cancelled THEN loops \ {l} ELSE (loops \ {l}) \cup {[l EXCEPT !.pc = "L_fence"]}
-          /\ UNCHANGED <<ep, cur, tcp, sealed>>
-       \/ /\ l.pc = "L_fence"
-          /\ IF shutdown \/ gen /= l.gen \/ NextEpoch = 0 THEN loops' = loops \ {l}
-             ELSE loops' = (loops \ {l}) \cup {[l EXCEPT !.pc = "L_publish", !.e = NextEpoch]}
-          /\ UNCHANGED <<ep, cur, tcp, sealed>>
-       \/ /\ l.pc = "L_publish"                             \* holding publishMu: re-check, ArmStart, publish
-          /\ IF shutdown \/ gen /= l.gen
-             THEN loops' = loops \ {l} /\ UNCHANGED <<ep, cur, sealed>>
-             ELSE /\ ep' = Set(ep, l.e, "live") /\ cur' = l.e /\ sealed' = FALSE
-                  /\ loops' = (loops \ {l}) \cup {[l EXCEPT !.pc = "L_start"]}
-          /\ UNCHANGED tcp
-       \/ /\ l.pc = "L_start" /\ ~sealed /\ ep[l.e] = "live"       \* Start succeeded: the loop is done
-          /\ tcp' = Set(tcp, l.e, TRUE) /\ loops' = loops \ {l}
-          /\ UNCHANGED <<ep, cur, sealed>>
-       \/ /\ l.pc = "L_start"                                      \* Start failed (refused / sealed): tear down, retry
-          /\ Teardown(l.e) /\ loops' = (loops \ {l}) \cup {[l EXCEPT !.pc = "L_waitown"]}
-          /\ UNCHANGED <<cur, tcp>>
-       \/ /\ l.pc = "L_waitown" /\ ep[l.e] = "done"
-          /\ loops' = (loops \ {l}) \cup {[l EXCEPT !.pc = "L_sleep", !.e = 0]}
-          /\ UNCHANGED <<ep, cur, tcp, sealed>>
-    /\ UNCHANGED <<lifeMu, pc, op, ret, ops, sup, supq, latched, selected, shutdown, gen, nextLoop, cancelled, drops, closedOnce>>
+LUnch == UNCHANGED <<lifeMu, pc, op, ret, ops, sup, supq, latched, selected, shutdown, gen, nextLoop, cancelled, drops, closedOnce>>
+LWaitPrev(l) == /\ l \in loops /\ l.pc = "L_waitprev" /\ ep[l.prev] = "done"
+                /\ loops' = (loops \ {l}) \cup {[l EXCEPT !.pc = "L_sleep"]}
+                /\ UNCHANGED <<ep, cur, tcp, sealed>> /\ LUnch
+LSleep(l) == /\ l \in loops /\ l.pc = "L_sleep"                                      \* the backoff sleep ends, or Close interrupts it
+             /\ loops' = IF cancelled THEN loops \ {l} ELSE (loops \ {l}) \cup {[l EXCEPT !.pc = "L_fence"]}
+             /\ UNCHANGED <<ep, cur, tcp, sealed>> /\ LUnch
+LFence(l) == /\ l \in loops /\ l.pc = "L_fence"
+             /\ IF shutdown \/ gen /= l.gen \/ NextEpoch = 0 THEN loops' = loops \ {l}
+                ELSE loops' = (loops \ {l}) \cup {[l EXCEPT !.pc = "L_publish", !.e = NextEpoch]}
+             /\ UNCHANGED <<ep, cur, tcp, sealed>> /\ LUnch
+LPublish(l) == /\ l \in loops /\ l.pc = "L_publish"                             \* holding publishMu: re-check, ArmStart, publish
+               /\ IF shutdown \/ gen /= l.gen
+                  THEN loops' = loops \ {l} /\ UNCHANGED <<ep, cur, sealed>>
+                  ELSE /\ ep' = Set(ep, l.e, "live") /\ cur' = l.e /\ sealed' = FALSE
+                       /\ loops' = (loops \ {l}) \cup {[l EXCEPT !.pc = "L_start"]}
+               /\ UNCHANGED tcp /\ LUnch
+LStartOK(l) == /\ l \in loops /\ l.pc = "L_start" /\ ~sealed /\ ep[l.e] = "live"       \* Start succeeded: the loop is done
+               /\ tcp' = Set(tcp, l.e, TRUE) /\ loops' = loops \ {l}
+               /\ UNCHANGED <<ep, cur, sealed>> /\ LUnch
+LStartFail(l) == /\ l \in loops /\ l.pc = "L_start"                                      \* Start failed (refused / sealed): tear down, retry
+                 /\ Teardown(l.e) /\ loops' = (loops \ {l}) \cup {[l EXCEPT !.pc = "L_waitown"]}
+                 /\ UNCHANGED <<cur, tcp>> /\ LUnch
+LWaitOwn(l) == /\ l \in loops /\ l.pc = "L_waitown" /\ ep[l.e] = "done"
+               /\ loops' = (loops \ {l}) \cup {[l EXCEPT !.pc = "L_sleep", !.e = 0]}
+               /\ UNCHANGED <<ep, cur, tcp, sealed>> /\ LUnch
+LoopStep(l) == LWaitPrev(l) \/ LSleep(l) \/ LFence(l) \/ LPublish(l) \/ LStartOK(l) \/ LStartFail(l) \/ LWaitOwn(l)
 
 (* ------------------------------------------------------------------ environment *)
 PeerSelects ==
